@@ -1197,3 +1197,95 @@ def c20_l(ctx):
     if n_sites < 2:
         ctx.undecided('expected a standardising branch and graphical-lasso calls, found {} '
                       'sites'.format(n_sites))
+
+
+@obligation('C20-m', 'T14 T3', 'Warton shrinkage: gamma R + (1 - gamma) I on the correlation scale, '
+            'scaled back with the same standard deviations; called with gamma = 1 - penalty',
+            floor=4,
+            necessary='already for a single summary (1 x 1 matrices) another combination gives a '
+                      'different covariance, hence a different synthetic likelihood')
+def c20_m(ctx):
+    from .. import symdiff as sd
+    from ..ratfun import Rat, Unsupported
+    from .C10 import _scalarise
+    ctx.fact('Warton (2008): R_gamma = gamma R + (1 - gamma) I, Sigma = D^1/2 R_gamma D^1/2; for '
+             'ns = 1 all matrices are scalars: diag and eye are identities, matmul a product')
+    cw = ctx.repo.module('elfi.methods.bsl.cov_warton')
+    fns = dict((f.name, f) for f in cw.functions.values())
+    cov = [f for f in cw.functions.values() if ctx.calls(f, 'np.sqrt(*_)')]
+    cor = [f for f in cw.functions.values() if not ctx.calls(f, 'np.sqrt(*_)') and
+           ctx.calls(f, 'np.eye(*_)')]
+    if len(cov) != 1 or len(cor) != 1:
+        raise AnchorMissing('Warton covariance / correlation shrinkage functions')
+
+    def scal(t):
+        t = _scalarise(t)
+
+        def rec(x):
+            if not isinstance(x, tuple) or not x:
+                return x
+            if isinstance(x[0], str) and x[0] == 'call' and x[1] == ('global', 'numpy.diag') and \
+                    len(x[2]) == 1:
+                return rec(x[2][0])
+            if isinstance(x[0], str) and x[0] == 'call' and x[1] == ('global', 'numpy.eye'):
+                return ('const', 1)
+            return tuple(rec(c) if isinstance(c, tuple) else c for c in x)
+        return rec(t)
+    for (f, want_fn, label) in (
+            (cov[0], lambda s, g, e: g * s + (Rat.const(1) - g) * (s + e),
+             'covariance: gamma S + (1 - gamma) (S + eps) on the diagonal'),
+            (cor[0], lambda s, g, e: g * s + (Rat.const(1) - g),
+             'correlation: gamma R + (1 - gamma) I')):
+        ex = ctx.ex(f)
+        rr = returns(f)
+        if len(rr) != 1:
+            ctx.undecided('{}: expected one return'.format(f.name))
+        alg = sd.Algebra()
+        s_, g_ = alg.const('s'), alg.const('gamma')
+
+        def leaf(t, f=f):
+            if t == ('param', f.params[0]):
+                return s_
+            if t == ('param', f.params[1]):
+                return g_
+            return None
+        try:
+            got = sd.convert(scal(ex.term(rr[0].value)), alg, leaf)
+        except Unsupported as e:
+            ctx.undecided('{} outside the fragment: {}'.format(f.name, e))
+        eps_c = [c for c in (n for n in own_nodes(f.node) if isinstance(n, ast.Constant))
+                 if isinstance(c.value, float) and 0 < c.value < 1e-3]
+        e_ = Rat.const(rf_fraction(eps_c[0].value)) if eps_c else Rat.const(0)
+        ctx.check(alg.same(got, want_fn(s_, g_, e_)), f, label, '',
+                  '{} does not compute {} (checked for a single summary)'.format(f.name, label),
+                  fn=f, node=rr[0])
+    # call sites: gamma = 1 - penalty
+    pm = ctx.repo.module('elfi.methods.bsl.pdf_methods')
+    n = 0
+    for f in pm.functions.values():
+        ex = ctx.ex(f)
+        for c in ctx.calls(f):
+            tg = ctx.cg.resolve(f, c)
+            if not tg or tg[0] not in (cov[0], cor[0]):
+                continue
+            n += 1
+            a = ex.term(c.args[1]) if len(c.args) > 1 else None
+            ok = a is not None and match(a, pattern('1 - penalty')) is not None
+            ctx.check(ok, f, 'shrinkage called with gamma = 1 - penalty', '',
+                      '{} passes {} as gamma (penalty 0 must mean no shrinkage)'.format(
+                          f.name, show(a) if a else None), fn=f, node=c)
+            # the shrunk matrix replaces the one handed in
+            st = getattr(c, '_parent', None)
+            a0 = c.args[0] if c.args else None
+            ok2 = isinstance(st, ast.Assign) and isinstance(st.targets[0], ast.Name) and \
+                isinstance(a0, ast.Name) and a0.id == st.targets[0].id
+            ctx.check(ok2, f, 'estimate replaced by its shrunk version', '',
+                      'the shrunk matrix is not stored back into the estimate it was computed '
+                      'from', fn=f, node=c)
+    if n < 2:
+        ctx.undecided('expected Warton call sites in both likelihoods, found {}'.format(n))
+
+
+def rf_fraction(v):
+    from fractions import Fraction
+    return Fraction(v)
